@@ -30,6 +30,18 @@ CHECKS = {
         "Grid of even event times with S,H in {None,0,3} (no ties); one watched entity with expression a == '1'; "
         "recordings sampled; virtual clock replaces time.monotonic/loop.time.",
         "DESIGN.md section 5 C05, Appendices B and K"),
+    "C07": (
+        "TLC model checking of spec/Guards.tla (guard stage vs. declarative statement) + trace validation of recorded "
+        "timelines of guarded trigger functions against spec/GuardTrace.tla (shared operators in GuardCore.tla; window "
+        "denotation for all range()/cron() forms bound at function level through spec/TimeSpec.tla)",
+        "The guard stage (@state_active on the triggering values, @time_active positive/negated windows, hold_off from the "
+        "last accepted occurrence, direct calls bypassing it) is an explicit TLA+ specification; TLC checks it against the "
+        "statement written over the occurrence history for all window sets / hold_off values / occurrence timings up to the "
+        "bound.  Real functions carrying state, event and time triggers (both subsystems) are driven through timelines with "
+        "occurrences exactly on window end points and hold_off boundaries; TLC folds the same operators over each recording.",
+        "Daily range() windows on an integer-second grid at decorator level (other forms at function level); occurrences "
+        "settled one at a time; recordings sampled.",
+        "DESIGN.md section 5 C07, Appendix G"),
 }
 
 NOT_YET = {
